@@ -157,12 +157,10 @@ func getShardBetweenExprRouteResult(rule router.Rule, n *ast.BetweenExpr) ([]int
 	}
 
 	if n.Not {
-		if start > last {
-			start, last = last, start
-			start = adjustShardIndex(rangeShard, rightValue, start)
-		} else {
-			start = adjustShardIndex(rangeShard, leftValue, start)
-		}
+		// k NOT BETWEEN left AND right is k < left OR k > right, whatever the order of
+		// the bounds (with left > right it holds for every key, and the two lists
+		// below then cover every table): the bounds must not be swapped here.
+		start = adjustShardIndex(rangeShard, leftValue, start)
 
 		l1 := makeList(rule.GetFirstTableIndex(), start+1)
 		l2 := makeList(last, rule.GetLastTableIndex()+1)
